@@ -172,6 +172,8 @@ func (r *NetconfResponse) record1dot1Chunks() error {
 
 	var cursor int
 
+	var terminated bool
+
 	for cursor < len(d) {
 		if d[cursor] == byte('\n') {
 			// we don't need this at the start of this loop, but this lets us easily handle newlines
@@ -189,13 +191,22 @@ func (r *NetconfResponse) record1dot1Chunks() error {
 
 		cursor++
 
+		if cursor >= len(d) {
+			return errNetconf1Dot1ParseError(
+				"unable to parse netconf response: data ends inside a chunk header",
+			)
+		}
+
 		if d[cursor] == byte('#') {
+			terminated = true
+
 			break
 		}
 
 		var chunkSizeStr string
 
-		for chunkSizeLen := 0; chunkSizeLen <= maxChunkSizeCharLen; chunkSizeLen++ {
+		for chunkSizeLen := 0; chunkSizeLen <= maxChunkSizeCharLen &&
+			cursor+chunkSizeLen < len(d); chunkSizeLen++ {
 			if d[cursor+chunkSizeLen] == byte('\n') {
 				chunkSizeStr = string(d[cursor : cursor+chunkSizeLen])
 
@@ -222,12 +233,29 @@ func (r *NetconfResponse) record1dot1Chunks() error {
 			)
 		}
 
+		if chunkSize <= 0 || chunkSize > len(d)-cursor {
+			// never read past what we actually received -- a size that is negative, zero or larger
+			// than the remaining data means the framing and the data disagree
+			return errNetconf1Dot1ParseError(
+				fmt.Sprintf(
+					"unable to parse netconf response: chunk size '%d' does not fit the data received",
+					chunkSize,
+				),
+			)
+		}
+
 		joined = append(joined, d[cursor:cursor+chunkSize]...)
 
 		// obviously no reason to iterate over the chunk we just yoinked out, so increment the
 		// cursor accordingly -- we can ignore newlines after the chunk since we handle that at
 		// the top of this loop
 		cursor += chunkSize
+	}
+
+	if !terminated {
+		return errNetconf1Dot1ParseError(
+			"unable to parse netconf response: end of chunks marker missing",
+		)
 	}
 
 	joined = bytes.TrimPrefix(joined, []byte(xmlHeader))
